@@ -105,14 +105,15 @@ LaterWins ==           \* with overwrite: never a conflict, the later provided a
     /\ Provided(y) \subseteq Provided(m.v)
 
 (* ---- export of all pairs for conformance ------------------------------------------ *)
-USeq == SetToSeq(Universe)
-NCases == ((Len(USeq) * Len(USeq) - 1) \div Stride) + 1
-Cases ==
-    [c \in 1..NCases |->
-        LET k == (c - 1) * Stride + 1
-            i == ((k - 1) \div Len(USeq)) + 1 j == ((k - 1) % Len(USeq)) + 1
-            m == Merge(USeq[i], USeq[j], FALSE) mo == Merge(USeq[i], USeq[j], TRUE) IN
-        [x |-> USeq[i], y |-> USeq[j], conflict |-> m.c, v |-> m.v, vow |-> mo.v,
-         lenient |-> m.c /\ OnlyEqualClashes(USeq[i], USeq[j])]]
-Export == TLCGet("stats").generated >= 0 /\ JsonSerialize(IOEnv.OUT_FILE, Cases)
+Export ==
+    /\ TLCGet("stats").generated >= 0
+    /\ LET us == SetToSeq(Universe) n == Len(us)
+           ncases == ((n * n - 1) \div Stride) + 1 IN
+       JsonSerialize(IOEnv.OUT_FILE,
+         [c \in 1..ncases |->
+            LET k == (c - 1) * Stride + 1
+                i == ((k - 1) \div n) + 1 j == ((k - 1) % n) + 1
+                m == Merge(us[i], us[j], FALSE) mo == Merge(us[i], us[j], TRUE) IN
+            [x |-> us[i], y |-> us[j], conflict |-> m.c, v |-> m.v, vow |-> mo.v,
+             lenient |-> m.c /\ OnlyEqualClashes(us[i], us[j])]])
 =============================================================================
